@@ -640,7 +640,7 @@ theorem inv13_add_core {s s' : State} {k ai : Nat} {a a' : Alloc} {ba : BA} {nb 
     · subst hx
       refine ⟨ba.size, 0, ?_, ?_, fun hn => by rw [hnb] at hn; cases hn⟩
       · rw [ha]; simp only [allocSum, hbas, baSum_append, hba, if_true]; omega
-      · rw [hbl, view_set_same, hnb]; simp only [Option.map_some] <;> (congr 1; omega)
+      · rw [hbl, view_set_same, hnb]; simp only [Option.map_some] <;> (congr 1 <;> omega)
     · refine ⟨0, 0, ?_, ?_, fun _ => ⟨rfl, rfl⟩⟩
       · have : ¬ ba.blobber = i := by rw [hba]; exact fun e => hx e.symm
         rw [ha]; simp only [allocSum, hbas, baSum_append, this, if_false]
@@ -649,7 +649,7 @@ theorem inv13_add_core {s s' : State} {k ai : Nat} {a a' : Alloc} {ba : BA} {nb 
     · subst hx
       refine ⟨ba.offer, 0, ?_, ?_, fun hn => by rw [hspa] at hn; cases hn⟩
       · rw [ha]; simp only [allocSum, hbas, baSum_append, hba, if_true]; omega
-      · rw [hsp, view_set_same, hspa]; simp only [Option.map_some] <;> (congr 1; omega)
+      · rw [hsp, view_set_same, hspa]; simp only [Option.map_some] <;> (congr 1 <;> omega)
     · refine ⟨0, 0, ?_, ?_, fun _ => ⟨rfl, rfl⟩⟩
       · have : ¬ ba.blobber = i := by rw [hba]; exact fun e => hx e.symm
         rw [ha]; simp only [allocSum, hbas, baSum_append, this, if_false]
